@@ -124,6 +124,16 @@ func checkC15(x []byte, sc *c15scratch, c vk.Recorder, key string, runVM bool) {
 			}
 		}
 		pv, stack := runVMOnInput(exact, runInput, &runErr)
+		if pv == nil && (!malformed(class) || runErr != nil) {
+			// the same in a session that has seen a failed external load before (LOADFAIL stays set for the session):
+			// the error path that sends failing instructions to the _catch node must not take a decode error with it
+			var runErr2 error
+			pv2, stack2 := runVMOnState(exact, runInput, &runErr2, state.FLAG_LOADFAIL)
+			c.Count("vm_runs_with_loadfail_set", 1)
+			if pv2 != nil || (malformed(class) && runErr2 == nil) {
+				pv, stack, runErr = pv2, stack2, runErr2
+			}
+		}
 		if pv == nil && malformed(class) && runErr == nil {
 			// the instructions in front of the malformed one neither stop the run nor discard the buffer nor can fail
 			// for lack of a loaded symbol: the run has to decode the malformed instruction and must report it
@@ -169,7 +179,12 @@ func trunc(b []byte, n int) []byte {
 type c15Resource struct{}
 
 func (c15Resource) GetTemplate(ctx context.Context, s string) (string, error) { return "t", nil }
-func (c15Resource) GetCode(ctx context.Context, s string) ([]byte, error)     { return []byte{}, nil }
+func (c15Resource) GetCode(ctx context.Context, s string) ([]byte, error) {
+	if s == "_catch" {
+		return vm.NewLine(nil, vm.HALT, nil, nil, nil), nil
+	}
+	return []byte{}, nil
+}
 func (c15Resource) GetMenu(ctx context.Context, s string) (string, error)     { return s, nil }
 func (c15Resource) FuncFor(ctx context.Context, s string) (resource.EntryFunc, error) {
 	return func(ctx context.Context, sym string, in []byte) (resource.Result, error) {
@@ -188,9 +203,16 @@ func runVMOnErr(b []byte, rerr *error) (interface{}, string) {
 }
 
 func runVMOnInput(b []byte, input string, rerr *error) (interface{}, string) {
+	return runVMOnState(b, input, rerr)
+}
+
+func runVMOnState(b []byte, input string, rerr *error, flags ...uint32) (interface{}, string) {
 	return vk.Guard(func() {
 		st := state.NewState(2032)
 		st.Down("root")
+		for _, f := range flags {
+			st.SetFlag(f)
+		}
 		st.SetInput([]byte(input))
 		ca := cache.NewCache()
 		v := vm.NewVm(st, c15Resource{}, ca, render.NewSizer(160))
